@@ -222,3 +222,75 @@ Section Flow.
       specialize (Ht eq_refl). rewrite Hnil in Ht. simpl in Ht. lia.
   Qed.
 End Flow.
+
+(* ---- no deadlock: a paused transport always has more than the low-water mark parked for the application, and one
+   receive that brings the fill level down to the low-water mark resumes it *)
+From EN Require Import Proofs.C10_queue.
+
+Lemma fstep_is_step : forall p f l,
+  fs (fst (fstep true p f l)) = fs f \/ exists l', fs (fst (fstep true p f l)) = fst (step true (fs f) l').
+Proof.
+  intros p f l. destruct l; simpl.
+  - right. exists (LRecv k). simpl. destruct (call (fs f) (ORecv k)); reflexivity.
+  - right. exists (LRecvInto k). simpl. destruct (call (fs f) (OInto k)); reflexivity.
+  - destruct (fpaused f); [left; reflexivity|]. destruct (uses_ext true (fs f)).
+    + right. exists (LData b). simpl. destruct (data true (fs f) b); reflexivity.
+    + right. exists (LData (firstn (fcap f - length (ibuf (fs f))) b)). simpl.
+      destruct (data true (fs f) (firstn (fcap f - length (ibuf (fs f))) b)) as [s' o]. destruct o; reflexivity.
+  - destruct (fpaused f); [left; reflexivity|]. right. exists LEof. simpl. destruct (eof_received (fs f)); reflexivity.
+  - right. exists (LLost exc). simpl. destruct (connection_lost (fs f) exc); reflexivity.
+  - right. exists LCancel. simpl. destruct (cancel (fs f)); reflexivity.
+  - right. exists LWake. simpl. destruct (wake true (fs f)); reflexivity.
+  - right. exists LTurn. simpl. destruct (turn (fs f)); reflexivity.
+Qed.
+
+Lemma fexec_q : forall p ls f, Inv true (fs f) -> Q (fs f) ->
+  Inv true (fs (fst (fexec true p f ls))) /\ Q (fs (fst (fexec true p f ls))).
+Proof.
+  intros p. induction ls as [|l ls IH]; intros f HI HQ; [split; assumption|].
+  rewrite fexec_fst_cons. apply IH.
+  - apply fstep_fs_inv. exact HI.
+  - destruct (fstep_is_step p f l) as [E | (l' & E)]; rewrite E; [exact HQ | apply step_q; assumption].
+Qed.
+
+Section NoDeadlock.
+  Variable p : fparams.
+  Hypothesis lo_lt_hi : flo p < fhigh p.
+  Hypothesis hi_le_max : fhigh p <= fmax p.
+
+  Lemma flow_no_deadlock_proof : forall ls,
+    let f := frun true p ls in
+    lost (fs f) = false ->
+    (* a fill level at or below the low-water mark is never paused *)
+    (length (ibuf (fs f)) <= flo p -> fpaused f = false) /\
+    (* a paused transport has bytes parked for the application ... *)
+    (fpaused f = true -> ibuf (fs f) <> []) /\
+    (* ... and the application taking them (down to the low-water mark) resumes it *)
+    (fpaused f = true -> tpc (fs f) = PIdle ->
+     forall k (into : bool), k <> 0 -> length (ibuf (fs f)) - k <= flo p ->
+       fpaused (fst (fexec true p f [if into then LRecvInto k else LRecv k; LTurn; LWake])) = false).
+  Proof.
+    intros ls f Hl.
+    destruct (flow_bounds_proof p lo_lt_hi hi_le_max ls Hl) as (_ & _ & Hp & _). fold f in Hp.
+    split; [|split].
+    - intro Hle. destruct (fpaused f) eqn:E; [|reflexivity]. specialize (Hp eq_refl). lia.
+    - intros E Hnil. specialize (Hp E). rewrite Hnil in Hp. simpl in Hp. lia.
+    - intros E Hidle k into Hk Hlen.
+      destruct (fexec_q p ls (finit p) (inv_init true) q_init) as (HI & HQ). fold (frun true p ls) in HI, HQ. fold f in HI, HQ.
+      specialize (Hp E).
+      destruct (inv_idle _ _ HI Hidle) as (Hw & Hx & Hd & Hm).
+      pose proof (inv_lost_exc _ _ HI Hl) as Hle.
+      unfold Q in HQ. rewrite Hidle in HQ. apply app_eq_nil in HQ. destruct HQ as (Hc & Hn).
+      destruct f as [s pa ca]. simpl in *.
+      destruct s as [ib ex ed w e lo le pc mc c n dl r]. simpl in *. subst.
+      destruct k as [|k]; [congruence|]. destruct ib as [|b0 ib]; [simpl in Hp; lia|].
+      assert (Hsk : length (skipn k ib) <= flo p) by (rewrite skipn_length; simpl in Hlen; lia).
+      destruct into; simpl;
+        rewrite Nat.ltb_antisym;
+        (replace (Nat.leb (length (skipn k ib)) (Datatypes.S (length ib))) with true
+           by (symmetry; apply Nat.leb_le; rewrite skipn_length; lia));
+        simpl; unfold maybe_resume; simpl;
+        (replace (Nat.leb (length (skipn k ib)) (flo p)) with true by (symmetry; apply Nat.leb_le; exact Hsk));
+        reflexivity.
+  Qed.
+End NoDeadlock.
